@@ -631,6 +631,10 @@ pub fn run_c25(ctx: &Ctx) -> i32 {
                 }
                 Err(p) => rep.violation("digest / Secret::new panic", &format!("panic: {p}"), json!({"limbs": limbs})),
             }
+            if sb != [0u8; 32] {
+                // scrubbing is C33's property; here it is only recorded
+                rep.count("secret_new_left_caller_buffer(owned by C33)");
+            }
             // limb decoding
             let l2: [u64; 2] = [rand_val(&mut rng, true) % P, rand_val(&mut rng, true) % P];
             rep.eval();
